@@ -29,6 +29,7 @@ class Tape:
 
     def __init__(self):
         self.calls = []
+        self.kept = []
 
     def __enter__(self):
         from tensorly.backend.numpy_backend import NumpyBackend
@@ -41,10 +42,22 @@ class Tape:
             self.calls.append((np.array(matrix, copy=True), np.array(U, copy=True), np.array(S, copy=True), np.array(V, copy=True)))
             return U, S, V
         NumpyBackend.register_method("svd", wrapper)
+        # number of triplets truncated_svd was asked to keep, call by call (only used to decide whether the sign of a KEPT
+        # singular vector is fixed by the documented convention of svd_flip; module attribute, no source change)
+        import tensorly.tenalg.svd as tsvd
+        self._tsvd = tsvd
+        self._old_trunc = tsvd.truncated_svd
+        old_trunc = self._old_trunc
+
+        def trunc_wrapper(matrix, n_eigenvecs=None, **kw):
+            self.kept.append(n_eigenvecs)
+            return old_trunc(matrix, n_eigenvecs=n_eigenvecs, **kw)
+        tsvd.truncated_svd = trunc_wrapper
         return self
 
     def __exit__(self, *a):
         setattr(self._cls, "svd", self._old)
+        self._tsvd.truncated_svd = self._old_trunc
         return False
 
 
@@ -159,6 +172,75 @@ def pred_tt_identity(X, factors, calls, what="tensor_train"):
         return (f"{what}: squared error {err2:.9e} differs from the sum of the discarded squared singular values of the "
                 f"working unfoldings {disc:.9e} (TT-SVD error identity)")
     return None
+
+
+def strict_code_formula(shape, req):
+    """independent transcription of the loop of validate_tt_rank(allow_overparametrization=False) as it is"""
+    out = [1]
+    for i, sz in enumerate(shape[:-1]):
+        out.append(min(int(req[i]) * int(sz), int(np.prod(shape[i + 1:])), int(req[i + 1])))
+    return out + [1]
+
+
+def strict_realised_formula(shape, req):
+    """the bonds TT-SVD realises (Coq: realised_tt_rank): the left factor is the bond obtained at the previous step"""
+    out = [1]
+    for i, sz in enumerate(shape[:-1]):
+        out.append(min(out[-1] * int(sz), int(np.prod(shape[i + 1:])), int(req[i + 1])))
+    return out + [1]
+
+
+def check_validate_strict(chk, X, rank, factors):
+    """validate_tt_rank(..., allow_overparametrization=False) is documented to return the rank realisable by TT-SVD:
+    compare it with the ranks tensor_train really returned and with the proved closed form (C09_tensor_train_realised_rank)"""
+    from tensorly.tt_tensor import validate_tt_rank
+    shape = tuple(int(x) for x in X.shape)
+    rank_arg = rank if isinstance(rank, int) else list(rank)
+    st, strict = C.call_impl(lambda: [int(r) for r in validate_tt_rank(shape, rank=rank_arg, allow_overparametrization=False)], timeout=TIMEOUT)
+    if st != "ok":
+        return
+    req = norm_rank_tt(len(shape), rank)
+    realised = [1] + [int(f.shape[2]) for f in factors]
+    chk.hist("validate_strict_checked", "tt")
+    if realised != strict_realised_formula(shape, req):
+        chk.finding(EP["tt"], {"function": "tt", "tensor": np.asarray(X), "rank": rank, "options": {}},
+                    f"tensor_train: returned ranks {realised} are not min(previous bond * size, remaining size, request) = {strict_realised_formula(shape, req)}", "C09_realised_rank")
+    if strict != realised:
+        chk.finding("tensorly.tt_tensor.validate_tt_rank",
+                    {"function": "validate_tt_rank", "shape": list(shape), "rank": rank, "strict": strict, "realised": realised},
+                    f"validate_tt_rank(allow_overparametrization=False) = {strict} is not the rank TT-SVD realises ({realised}) for shape {shape}, request {req}",
+                    "C09_validate_strict")
+
+
+def clf_strict_uses_requested_left_rank(f):
+    """known finding: the strict rule multiplies the REQUESTED left rank; exactly that formula reproduces the answer,
+    and the realised ranks are the repaired formula"""
+    inp = f.get("inputs", {})
+    try:
+        shape = [int(x) for x in inp["shape"]]; req = norm_rank_tt(len(shape), inp["rank"])
+        return (inp.get("function") == "validate_tt_rank" and list(inp["strict"]) == strict_code_formula(shape, req)
+                and list(inp["realised"]) == strict_realised_formula(shape, req) and list(inp["strict"]) != list(inp["realised"]))
+    except Exception:
+        return False
+
+
+def _install_known_loader():
+    """known_findings.json is assembled by the coordinator from known_findings.d/*.json; read our snippet directly as well so
+    that the classification does not depend on when that merge was last run (same local helper as C05)."""
+    import json, os
+    orig = C.load_known
+    if getattr(orig, "_c09", False):
+        return
+
+    def load(prop):
+        ks = list(orig(prop))
+        p = os.path.join(C.VERIF, "known_findings.d", f"{prop}.json")
+        if os.path.exists(p):
+            have = {k.get("id") for k in ks}
+            ks += [k for k in json.load(open(p)).get("findings", []) if k.get("property") == prop and k.get("id") not in have]
+        return ks
+    load._c09 = True
+    C.load_known = load
 
 
 def interleave(X):
@@ -280,6 +362,31 @@ def pred_tr(X, rank, mode, factors, sufficient):
 
 
 # ----------------------------------------------------------------------------- running the implementation
+LAST_KEPT = []    # truncation ranks of the SVD calls of the last run_impl (same order as the tape)
+
+
+def sign_ambiguous(calls, kept):
+    """True when the documented convention of svd_flip ("the entry of largest absolute value of every column of U is
+    made positive") does not determine the sign of some KEPT singular vector: two entries of opposite sign tie for the
+    largest magnitude.  The property does not say how such ties are broken, so these runs are judged by the predicates
+    only and not by the exact comparison of the U-derived factors."""
+    for k, (M, U, S, V) in enumerate(calls):
+        U = np.asarray(U, dtype=float)
+        r = U.shape[1]
+        if k < len(kept) and kept[k] is not None and len(kept) == len(calls):
+            r = min(r, int(kept[k]))
+        for j in range(r):
+            col = U[:, j]
+            a = np.abs(col)
+            top = a.max() if a.size else 0.0
+            if top == 0.0:
+                return True
+            tied = col[a >= top * (1 - 1e-9)]
+            if tied.size > 1 and (tied > 0).any() and (tied < 0).any():
+                return True
+    return False
+
+
 def run_impl(kind, X, rank, extra):
     """returns (status, value, tape) ; value: list of factor arrays or (core, factors)"""
     from tensorly.decomposition import tensor_train, tensor_train_matrix, tensor_ring, tucker
@@ -299,6 +406,7 @@ def run_impl(kind, X, rank, extra):
             st, v = C.call_impl(f, timeout=TIMEOUT)
         else:
             raise KeyError(kind)
+    LAST_KEPT[:] = list(tp.kept)
     return st, v, tp.calls
 
 
@@ -374,6 +482,30 @@ def make_tensor(cls, shape, nrng, rng):
         if not X.any():
             X.flat[0] = 1
         return X
+    if cls in ("negdiag", "negdiag_int"):
+        # negative superdiagonal tensor: singular vectors -e_i (no positive entry, exact zeros)
+        X = np.zeros(shape, dtype=np.int64 if cls.endswith("_int") else float)
+        for j in range(min(shape)):
+            X[(j,) * n] = -(j + 1 + (0 if cls.endswith("_int") else rng.choice([0.0, 0.25, 0.5])))
+        return X
+    if cls in ("negperm", "negperm_int"):
+        # negated partial permutation: at most one non-zero per slice of every mode, all entries negative
+        X = np.zeros(shape, dtype=np.int64 if cls.endswith("_int") else float)
+        k = max(1, min(shape) - rng.randint(0, 1))
+        perms = [rng.sample(range(sz), min(k, sz)) for sz in shape]
+        k = min(len(p) for p in perms)
+        for j in range(k):
+            X[tuple(p[j] for p in perms)] = -(1 if rng.random() < 0.5 else rng.randint(1, 4))
+        return X
+    if cls == "sparseint":
+        # sparse integer tensor (integer dtype), mostly negative entries
+        X = np.zeros(shape, dtype=np.int64)
+        nnz = max(1, int(np.prod(shape)) // 4)
+        for _ in range(nnz):
+            X[tuple(rng.randrange(sz) for sz in shape)] = rng.choice([-3, -2, -1, -1, -1, 1, 2])
+        if not X.any():
+            X.flat[0] = -1
+        return X
     if cls == "intlow":
         # integer tensor of low rank: sum of two integer outer products
         X = np.zeros(shape, dtype=np.int64)
@@ -388,7 +520,7 @@ def make_tensor(cls, shape, nrng, rng):
     raise KeyError(cls)
 
 
-CLASSES = ["generic", "lowtt", "lowml", "deficient", "integer", "intlow"]
+CLASSES = ["generic", "lowtt", "lowml", "deficient", "integer", "intlow", "negdiag", "negperm_int", "sparseint", "negdiag_int", "negperm"]
 
 
 def rank_choices(rng, n_entries, hi):
@@ -422,6 +554,16 @@ def tr_rank_for(rng, shape, mode, sufficient):
 def gen_predicate_cases(tier, rng, nrng):
     """bigger cases judged by the predicates only"""
     N = 220 if tier == "quick" else 2400
+    # tensor_ring: EVERY (order, start mode) pair of orders 2-5, once at sufficient rank and once truncating
+    for rep in range(1 if tier == "quick" else 4):
+        for order in (2, 3, 4, 5):
+            for mode in range(order):
+                for sufficient in (True, False):
+                    shape = tuple(rng.choice([2, 2, 3]) for _ in range(order))
+                    cls = rng.choice(["generic", "integer", "negperm", "lowtt"])
+                    X = make_tensor(cls, shape, nrng, rng)
+                    rank = tr_rank_for(rng, list(shape), mode, sufficient)
+                    yield "tr", X, rank, {"mode": mode}, {"cls": cls, "sufficient": sufficient}
     dims_by_order = {2: (1, 7), 3: (1, 5), 4: (1, 4), 5: (1, 3)}
     for i in range(N):
         order = rng.choice([2, 3, 3, 4, 4, 5])
@@ -629,6 +771,16 @@ def run(chk):
         if not finite(st, v, calls):
             chk.finding(EP[kind], describe(kind, X, rank, extra, info), "non-finite output or SVD query", "C09_finite")
             continue
+        msg = predicate(kind, X, rank, extra, st, v, info, calls)
+        if msg:
+            chk.finding(EP[kind], describe(kind, X, rank, extra, info), msg, "C09_bounds")
+        chk.hist("corr_class", info["cls"])
+        if kind == "tt" and st == "ok":
+            check_validate_strict(chk, X, rank, v)
+        if sign_ambiguous(calls, LAST_KEPT):
+            # the sign of a kept singular vector is not fixed by the documented convention: predicates only
+            chk.hist("corr_sign_ambiguous_predicates_only", kind)
+            continue
         cid = len(cases)
         cases.append(f"({cid}%nat, {kind_lit(kind, extra)}, {qt(X)}, {rank_lit(rank)},\n  {tape_lit(calls)},\n  {outcome_lit(kind, st, v)})")
         meta.append((kind, X, rank, extra, info, st))
@@ -640,9 +792,6 @@ def run(chk):
         nontriv = X.size > 1
         chk.count(key=("corr", kind, X.shape, str(rank), tuple(sorted(extra.items())), info["cls"]), nontrivial=nontriv)
         chk.hist("corr_function", kind); chk.hist("corr_outcome", st); chk.hist("corr_order", X.ndim)
-        msg = predicate(kind, X, rank, extra, st, v, info, calls)
-        if msg:
-            chk.finding(EP[kind], describe(kind, X, rank, extra, info), msg, "C09_bounds")
         if cid % 41 == 0:
             chk.sample({"stream": "correspondence", "function": kind, "shape": list(X.shape), "rank": rank, "options": {k: str(v_) for k, v_ in extra.items()},
                         "class": info["cls"], "outcome": st, "svd_calls": len(calls),
@@ -670,12 +819,14 @@ def run(chk):
             chk.hist("pred_function", kind); chk.hist("pred_order", X.ndim); chk.hist("pred_class", info["cls"])
             if msg:
                 chk.finding(EP[kind], describe(kind, X, rank, extra, info), msg, "C09_bounds")
+            if kind == "tt" and st == "ok":
+                check_validate_strict(chk, X, rank, v)
     if resid:
         chk.cov["oracle_residuals"] = {"svd_calls_taped": len(resid), "max_relative_residual_U_S_V_minus_M": max(resid),
                                        "max_orthonormality_residual_UtU_VVt_minus_I": max(orth) if orth else 0.0}
     chk.cov["exhaustive"] = False
-    chk.cov["rule"] = ("correspondence: random tensors of order 2-4 over mode sizes {1,2,3} (<= 24 entries quick / 36 thorough), six value classes "
-                       "(generic dyadic, exactly low TT rank, exactly low multilinear rank, rank-deficient, integer, integer low rank), "
+    chk.cov["rule"] = ("correspondence: random tensors of order 2-4 over mode sizes {1,2,3} (<= 24 entries quick / 36 thorough), eleven value classes "
+                       "(generic dyadic, exactly low TT rank, exactly low multilinear rank, rank-deficient, integer, integer low rank, negative superdiagonal (float / int dtype), negated partial permutation (float / int dtype), sparse integer), "
                        "tensor_train / tensor_train_matrix / tensor_ring (every start mode) / tucker (0-2 HOOI sweeps, tol=0), int and list ranks from 1 to beyond "
                        "the mode sizes plus invalid requests; model over Q fed with the taped LAPACK answers; U-derived factors exact, products |d| <= 1e-9 + 1e-9(|a|+|b|). "
                        "predicates (tests): order 2-5, mode sizes 1-7, same classes, default options; "
@@ -687,7 +838,8 @@ def run(chk):
     chk.trusted += ["numpy.linalg.svd (LAPACK gesdd) as SVD oracle for the implementation and, independently, for the predicates' singular values",
                     "NumPy reshape/transpose/moveaxis as modelled in Base/Tensor.v; n-mode product modelled at index level (Model/SvdDecomp.v mode_dot)",
                     "tape recorder: NumpyBackend.register_method('svd', wrapper) in harness/props/C09.py"]
-    return chk.finish({})
+    _install_known_loader()
+    return chk.finish({"strict_rank_uses_requested_left_rank": clf_strict_uses_requested_left_rank})
 
 
 def replay(payload):
@@ -696,6 +848,13 @@ def replay(payload):
         return 1
     inp = payload["inputs"]
     kind = inp["function"]
+    if kind == "validate_tt_rank":
+        from tensorly.tt_tensor import validate_tt_rank
+        shape = tuple(inp["shape"]); rank = inp["rank"]
+        strict = [int(r) for r in validate_tt_rank(shape, rank=rank if isinstance(rank, int) else list(rank), allow_overparametrization=False)]
+        realised = strict_realised_formula(shape, norm_rank_tt(len(shape), rank))
+        print("replay: validate_tt_rank strict", shape, rank, "->", strict, "realised by TT-SVD:", realised)
+        return 1 if strict != realised else 0
     X = C.from_jsonable_array(inp["tensor"])
     rank = inp["rank"]
     extra = dict(inp.get("options") or {})
